@@ -49,6 +49,20 @@ def cases(ctx):
         d = gen.rbytes(r, 32) if r.random() < 0.8 else r.choice([b"\x00" * 32, b"\xff" * 32, (ec.N).to_bytes(32, "big"), (ec.N - 1).to_bytes(32, "big"), (1).to_bytes(32, "big")])
         yield dict(base, mode="digest", msg=d.hex(), hash="none")
         yield {"k": "ecdh", "a": rkey(r).to_bytes(32, "big").hex(), "b": rkey(r).to_bytes(32, "big").hex(), "ca": r.random() < 0.5, "cb": r.random() < 0.5}
+    # ECDH against crafted peer points (not derived from a private key): x just below p (>= the group order n), tiny x (leading zero
+    # bytes in the secret), combined with private keys 1 / n-1 (the secret is then the peer's own x) and ordinary keys
+    if ctx.shard % 4 == 0 or ctx.tier == "thorough":
+        xs = []
+        for base_x, cnt in ((ec.N, 6), (ec.P - 1, -4), (1, 6), (2**128, 3), (2**255, 3), (ec.N - 1, -3)):
+            x0, found = base_x, 0
+            while found < abs(cnt):
+                if ec.lift_x(x0, False) is not None:
+                    xs.append(x0)
+                    found += 1
+                x0 += 1 if cnt > 0 else -1
+        for x0 in xs:
+            for d in (1, ec.N - 1, 2, rkey(r)):
+                yield {"k": "ecdh_pt", "x": "%064x" % x0, "odd": r.random() < 0.5, "d": "%064x" % d, "cp": r.random() < 0.5}
     # one very long message (above 32 MiB), generated inside the driver so that no hex has to be shipped
     if ctx.shard in (0, 1):
         yield {"k": "longmsg", "key": rkey(r).to_bytes(32, "big").hex(), "compressed": True, "len": (32 << 20) + 1 + ctx.shard * 4096, "hash": ["sha256", "sha256d"][ctx.shard]}
@@ -72,6 +86,22 @@ def judge(ctx, case):
             ctx.viol("ECDH shared secret is not symmetric", {"ab": str(r1)[:200], "ba": str(r2)[:200]})
         if r1.get("ok") != exp:
             ctx.viol("ECDH shared secret differs from the reference x(a*B)", {"got": str(r1.get("ok", r1.get("err")))[:100], "exp": exp})
+        return
+    if case["k"] == "ecdh_pt":
+        x0, d = int(case["x"], 16), int(case["d"], 16)
+        Pt = ec.lift_x(x0, case["odd"])
+        ctx.hit("ecdh_crafted_point")
+        ctx.nontrivial()
+        exp_x = ec.mul(d, Pt)[0]
+        if x0 >= ec.N and d in (1, ec.N - 1):
+            ctx.hit("ecdh_secret_x>=n")
+        if exp_x < 2**240:
+            ctx.hit("ecdh_secret_leading_zeros")
+        r1 = ctx.call({"op": "ecdh", "key": case["d"], "pub": ec.ser(Pt, case["cp"]).hex()})
+        ctx.ev()
+        exp = exp_x.to_bytes(32, "big").hex()
+        if r1.get("ok") != exp:
+            ctx.viol("ECDH shared secret with a crafted peer point differs from the reference x(d*P) (%s)" % ("x >= group order" if exp_x >= ec.N else "x with leading zero bytes" if exp_x < 2**240 else "ordinary x"), {"got": str(r1)[:200], "exp": exp, "pub": ec.ser(Pt, True).hex(), "d": case["d"]})
         return
     if case["k"] == "longmsg":
         n = case["len"]
